@@ -281,6 +281,26 @@ def check_path(case):
             if bad is not None:
                 bad.detail = "segment %d: %s" % (i, bad.detail)
                 return bad
+    # the transform handed to the constructor as a Matrix object the caller goes on using: two paths carry it, one is
+    # reified (or multiplied in place) - the other still carries M, and the caller's matrix still is M
+    mobj = lib.mk_matrix(A)
+    coeffs = lambda m: (m.a, m.b, m.c, m.d, m.e, m.f)
+    before = coeffs(mobj)
+    one = se.Path(*[_copy.copy(s) for s in orig], transform=mobj)
+    two = se.Path(*[_copy.copy(s) for s in orig], transform=mobj)
+    if case["sub"] % 2:
+        one.reify()
+    else:
+        one *= lib.mk_matrix([2.0, 0.0, 0.0, 0.5, 1.0, -3.0])
+    o.label("path:carried-matrix-object")
+    if coeffs(mobj) != before:
+        return o.violation("path:constructor-matrix-modified", "Path(..., transform=M) then %s: the caller's M is now %r" % ("reify()" if case["sub"] % 2 else "*= N", coeffs(mobj)))
+    two.reify()
+    for i, (a, b) in enumerate(zip(orig, two)):
+        bad = compare_seg(o, a, b, A, "Path(transform=M).reify()")
+        if bad is not None:
+            bad.detail = "segment %d: %s (another path built with the same Matrix object was changed in place before)" % (i, bad.detail)
+            return bad
     # lazily transformed segments
     lazy = (p * mA).segments(transformed=True)
     for i, (a, b) in enumerate(zip(orig, lazy)):
@@ -357,6 +377,25 @@ def check_shape(case):
             if kind in ("circle", "ellipse") and "shape*M" in what and "Path" not in what and roundshape_known_class(A):
                 known = bad
                 continue
+            return bad
+    # the transform handed to the constructor as a Matrix object, shared by two shapes (see check_path)
+    mobj = lib.mk_matrix(A)
+    coeffs = lambda m: (m.a, m.b, m.c, m.d, m.e, m.f)
+    before = coeffs(mobj)
+    spec = ["rect" if kind == "rrect" else kind, case["shape"][1]]
+    one, two = c17.mk_shape(spec, transform=mobj), c17.mk_shape(spec, transform=mobj)
+    one.reify()
+    one *= lib.mk_matrix([2.0, 0.0, 0.0, 0.5, 1.0, -3.0])
+    o.label("shape:carried-matrix-object")
+    if coeffs(mobj) != before:
+        return o.violation("shape:constructor-matrix-modified", "%s(..., transform=M) then reify() and *= N: the caller's M is now %r" % (kind, coeffs(mobj)))
+    got = list(abs(se.Path(two)))
+    if len(got) != len(orig):
+        return o.violation("shape:carried-matrix:segment-count", "%d segments, decomposition has %d" % (len(got), len(orig)))
+    for i, (a, b) in enumerate(zip(orig, got)):
+        bad = compare_seg(o, a, b, A, "abs(Path(shape(transform=M)))")
+        if bad is not None:
+            bad.detail = "%s %r segment %d: %s (another shape built with the same Matrix object was changed in place before)" % (kind, case["shape"][1], i, bad.detail)
             return bad
     if known is not None:
         return o.known("KF-ROUNDSHAPE-TRANSFORMED", known.detail)
